@@ -181,3 +181,22 @@ class Report:
         if und:
             return 2
         return 0
+
+
+def reissue(rep, rule, sub, why='', keep=None, prefix_rule=True):
+    """re-issue the obligations of a sub-report (a rule function of another property's module run into its own Report) under `rule` of
+    `rep`. Obligations that are listed known findings of the other property are skipped (they are that property's findings).
+    keep(o) selects obligations; returns the number re-issued."""
+    n = 0
+    for o in sub.obs:
+        if o['verdict'] == 'known-finding':
+            continue
+        if keep is not None and not keep(o):
+            continue
+        key = o['key'].replace(':', '/', 1) if prefix_rule else o['key'].split(':', 1)[1]
+        n += 1
+        if o['verdict'] == 'undecided':
+            rep.undecided(rule, key, o['what'], where=o['where'])
+        else:
+            rep.ob(rule, key, o['verdict'] == 'holds', why + o['what'], where=o['where'], facts=o['facts'])
+    return n
